@@ -106,3 +106,36 @@ def pmap(fn: Callable[[Any], Any], items: Sequence[Any], chunksize: Optional[int
     cs = chunksize or max(1, len(items) // (nproc * 8))
     with ctx.Pool(nproc, initializer=_init_worker) as pool:
         return pool.map(fn, items, chunksize=cs)
+
+
+def in_fresh_child(fn: Callable[[], Any], timeout: float = 120.0) -> Any:
+    """runs `fn()` in a forked child of this process and returns its (picklable) result: the child starts from this
+    process's state and whatever `fn` does to caches / module state dies with it.  Used to replay a SEQUENCE of calls
+    from a state in which none of them has happened yet."""
+    import os
+    import pickle
+    import select
+    r, w = os.pipe()
+    pid = os.fork()
+    if pid == 0:  # child
+        try:
+            os.close(r)
+            try:
+                payload = pickle.dumps(("ok", fn()))
+            except BaseException as e:  # noqa
+                payload = pickle.dumps(("err", f"{type(e).__name__}: {e}"))
+            with os.fdopen(w, "wb") as f:
+                f.write(payload)
+        finally:
+            os._exit(0)
+    os.close(w)
+    chunks = []
+    with os.fdopen(r, "rb") as f:
+        ready, _, _ = select.select([f], [], [], timeout)
+        if ready:
+            chunks.append(f.read())
+    os.waitpid(pid, 0)
+    if not chunks or not chunks[0]:
+        return None
+    kind, val = pickle.loads(chunks[0])
+    return val if kind == "ok" else None
